@@ -73,6 +73,14 @@ func (c Config) String() string {
 	if c.DataDictionary != "" || c.AppDD != "" {
 		s += "/dd"
 	}
+	if len(c.Extra) > 0 {
+		var ks []string
+		for k, v := range c.Extra {
+			ks = append(ks, k+"="+v)
+		}
+		sort.Strings(ks)
+		s += "/" + strings.Join(ks, ",")
+	}
 	return s
 }
 
